@@ -72,8 +72,16 @@ impl Stats {
             r.counter(k, *v);
         }
         r.nontrivial_many(self.nontrivial);
+        let mut kept: BTreeMap<String, u64> = BTreeMap::new();
         for (s, d) in self.viols {
+            *kept.entry(s.clone()).or_insert(0) += 1;
             r.violation(&s, d);
+        }
+        // the report counts occurrences per signature: register the ones whose detail was not kept
+        for (s, n) in &self.viol_counts {
+            for _ in kept.get(s).copied().unwrap_or(0)..*n {
+                r.violation(s, json!(null));
+            }
         }
     }
 }
